@@ -308,6 +308,8 @@ def run_case(case):
                         break
         except Exception as e:
             problems.append(f"get_time_with_phase with a caller-supplied t_ref raised {type(e).__name__}: {str(e)[:100]}")
+    if u.rad.is_equivalent(u.one) or u.deg.is_equivalent(u.one):
+        problems.append("after the table operations angles and dimensionless numbers are interchangeable process-wide (a unit equivalency was left enabled)")
     try:
         if table_of(s) != base:
             problems.append("the table (values, units or metadata) was modified by read-only operations on it")
